@@ -24,7 +24,7 @@ Inductive pv : Type :=
 | PTuple (l : list pv)
 | PDict (sym : bool) (ents : list (key * pv))  (* insertion order; sym = true: pg.Dict *)
 | PObj (name : list N) (uid : N) (ents : list (key * pv)).
-  (* pg.Object of the class with this __qualname__; uid tells apart different classes that share a __qualname__;
+  (* pg.Object of the class with this __qualname__; uid tells apart different classes that share a __qualname__ and orders them as (module, id(class)) does;
      fields in declaration order *)
 
 Inductive err : Type := ETypeError | ERecursion | EUnmodelled.
@@ -225,10 +225,14 @@ Fixpoint lt_f (n : nat) (a b : pv) {struct n} : result bool :=
           | PDict _ eb => ents_lt (eq_f n') (lt_f n') (sort_ents ea) (sort_ents eb)
           | _ => Err EUnmodelled
           end
-      | PObj na ua ea =>         (* Object.sym_lt: same class -> lt of the attribute dicts, else back to base.lt (endless) *)
+      | PObj na ua ea =>
+          (* Object.sym_lt: same class -> lt of the attribute dicts; another class of the same __qualname__ -> by
+             (module, class identity), which is the order of the uids; otherwise back to base.lt (endless) *)
           match b with
           | PObj nb ub eb =>
-              if str_eqb na nb && N.eqb ua ub then ents_lt (eq_f n') (lt_f n') (sort_ents ea) (sort_ents eb)
+              if str_eqb na nb then
+                if N.eqb ua ub then ents_lt (eq_f n') (lt_f n') (sort_ents ea) (sort_ents eb)
+                else Ok (N.ltb ua ub)
               else Err ERecursion
           | _ => Err ERecursion
           end
@@ -376,14 +380,13 @@ Definition all_ranks : list (list N) :=
 Definition name_ok (name : list N) : bool := negb (existsb (str_eqb name) all_ranks).
 Definition str_key (k : key) : bool := match k with KStr _ => true | KInt _ => false end.
 
-(* [cu]: the class table, __qualname__ -> the one class of that name *)
-Fixpoint cmp_ok (cu : list N -> N) (f : fam) (v : pv) : bool :=
+Fixpoint cmp_ok (f : fam) (v : pv) : bool :=
   match v with
-  | PList _ l => forallb (cmp_ok cu f) l
+  | PList _ l => forallb (cmp_ok f) l
   | PTuple l => forallb (leaf_in_fam f) l
-  | PDict _ e => nodup_keys e && forallb (fun kv => cmp_ok cu f (snd kv)) e
-  | PObj name uid e => name_ok name && N.eqb uid (cu name) && nodup_keys e && forallb (fun kv => str_key (fst kv)) e
-                       && forallb (fun kv => cmp_ok cu f (snd kv)) e
+  | PDict _ e => nodup_keys e && forallb (fun kv => cmp_ok f (snd kv)) e
+  | PObj name uid e => name_ok name && nodup_keys e && forallb (fun kv => str_key (fst kv)) e
+                       && forallb (fun kv => cmp_ok f (snd kv)) e
   | _ => true
   end.
 
